@@ -40,6 +40,36 @@ CHECKS = {
             "with a clean outcome; live-node injection in every connection state.",
             "Trusted: TLC, the line-counting tracer, engine/vsched.py. A clean outcome is a list of messages or an exception class "
             "of bromelia/exceptions.py.", "4 C03"),
+    "C04": ("TLA+ spec/RecvPath.tla (network with arbitrary segmentation, transport thread, receive worker with reassembly, state "
+            "machine thread, 1..2 consumers; one action per scheduler step) model-checked by TLC: InOrderOnce, PerConsumerOrder, "
+            "BaseInOrder, AllDelivered, TerminalOk; three historic deviations shown to violate them; the real node run under a "
+            "deterministic scheduler with random / every-single-split / byte-by-byte segmentations and one-preemption sweeps at "
+            "opcode and line granularity; recorded executions validated by TLC as behaviours of RecvPath",
+            "All segmentations and interleavings of 3 (quick) / 4 (thorough) messages in the model; hundreds/thousands of scheduled "
+            "executions of the real threads, every byte split point of a two-message stream, every preemption point of the "
+            "transport/worker/consumer/state-machine critical sections against the conflicting operation.",
+            "Trusted: TLC, engine/vsched.py (scheduler, fake socket/selector, timer rule), adapters/node.py, the wrappers that "
+            "record the data-flow operations. Threads are serialised (GIL semantics) with preemption at synchronisation "
+            "operations and, in the named functions, at every line / bytecode.", "4 C04"),
+    "C05": ("TLA+ spec/SendPath.tla (submitters, state machine batching, selector hand-off, transport thread with partial writes, "
+            "concurrent reads) model-checked by TLC: NoTear, NoDup, InOrder, NoLoss; three historic deviations shown to violate "
+            "them; the real node run under a deterministic scheduler (random and PCT schedules, partial-write plans, inbound "
+            "traffic, small send buffer) with an end-to-end monitor on the bytes written; recorded executions validated by TLC",
+            "All interleavings of 2 submitters x 2 messages x partial writes in the model; hundreds/thousands of scheduled "
+            "executions of the real threads with 1..3 submitters.",
+            "Trusted: as C04. A write that fails with EAGAIN after the selector reported writable closes the connection in "
+            "bromelia; that fault is outside the statement (partial writes are inside).", "4 C05"),
+    "C08": ("TLA+ spec/Life.tla (non-atomic teardown by the state machine thread, transport thread, receive worker, consumers "
+            "blocked in get_message, application threads calling close() and send_message(), the peer as environment) "
+            "model-checked by TLC for both roles: TerminalOk, ClosedIsReleased, NoLockLeak and, under fairness, "
+            "EventuallyReleased / CausesEnd; seven deviations shown to violate them; the real node run under a deterministic "
+            "scheduler for every cause x point x consumer x role with restart on the same object, and one-preemption sweeps "
+            "that generalise TLC's counterexample schedules",
+            "Every interleaving of the teardown with 2 consumers in the model (3.5M states per role in the thorough tier); every "
+            "termination cause at every point of the connection life on the real threads; every line-level preemption point of "
+            "the worker / consumer / state machine thread against the rest of the teardown.",
+            "Trusted: as C04. A close() issued before the connection is Open only clears a flag that the capabilities exchange "
+            "sets again (the connection does not end): outside the statement.", "4 C08"),
     "C06": ("TLA+ state machine spec/Psm.tla (one action per tick + environment events) model-checked by TLC for both roles until "
             "the reachable set closes: 11 action properties + ClosedImpliesReleased; four historic deviations shown to violate "
             "them; the dumped state graph covered by edge-covering tours on the real threaded node under a deterministic "
